@@ -1,19 +1,29 @@
-(** C09 - parsing is monotonic in the decimal value.  PROVED END TO END: [C09_monotone] (bit patterns of non-negative floats are ordered like their values, +inf on top: [bits_le_iff]).
-    Domain and premise as in props/C01.v: [in_domain] = valid_inputb and at most 2^28 digits, every i32
-    exponent; [deep_ok] is vacuous for the compact configurations and the single residual premise for
-    the Eisel-Lemire ones (see props/C01.v).  Closed by [exact]; the model is tied to /repo by the
-    correspondence harness on every run. *)
+(** C09 - parsing is monotonic in the decimal value.  PROVED END TO END: [C09_final] (bit patterns of non-negative floats are ordered like their values, +inf on top: [bits_le_iff]).
+    Domain as in props/C01.v: [in_domain] = valid_inputb (ASCII digits, integer part without leading zero, any
+    i32 exponent) and at most 2^28 digits; all eight configurations, both formats, both build modes; NO further
+    premise (the [deep_ok] versions are kept beneath as the intermediate statements).  Closed by [exact]; the
+    model is tied to /repo by the correspondence harness on every run. *)
 
 From Coq Require Import ZArith QArith Qabs List Bool Reals Qreals.
 From Coq Require Import Floats.SpecFloat.
 From Flocq Require Import Core.Core.
-From ML Require Import base.RustSem model.Fmt model.Num model.Number model.Parse model.Lemire model.Bellerophon model.Top
+From ML Require Import base.RustSem model.Fmt model.Num model.Number model.Parse model.Lemire model.Bellerophon model.Vec model.Bigint model.Slow model.Top
   spec.Decimal spec.Round spec.RoundFacts spec.DigitsSuffice gen.Consts gen.Tables gen.BTables gen.PowDump
   proofs.ParseFacts proofs.FastPathFacts proofs.EndToEnd proofs.EndToEnd2 proofs.EndToEnd3 proofs.EndToEnd4 proofs.EndToEnd5 proofs.EndToEnd6 proofs.EndToEnd7
-  proofs.LemireFacts6 proofs.Glue.
+  proofs.LemireFacts6 proofs.Glue proofs.TruncFacts proofs.TruncFacts2 proofs.SlowFacts1 proofs.DeepFallback proofs.DeepFallback2 proofs.Final.
 Import ListNotations.
 
 Open Scope Z_scope.
+
+Theorem C09_C09_final :
+  forall (c : config) (f : format) (b : build) (i1 f1 : list Z) (e1 : Z) (i2 f2 : list Z) (e2 r1 r2 : Z),
+         In c ALL_CONFIGS ->
+         f = F32 \/ f = F64 ->
+         in_domain i1 f1 e1 ->
+         in_domain i2 f2 e2 ->
+         (dec_value i1 f1 e1 <= dec_value i2 f2 e2)%Q ->
+         PF c f b i1 f1 e1 = Ok r1 -> PF c f b i2 f2 e2 = Ok r2 -> r1 <= r2.
+Proof. exact C09_final. Qed.
 
 Theorem C09_C09_monotone :
   forall (c : config) (f : format) (b : build) (i1 f1 : list Z) (e1 : Z) (i2 f2 : list Z) (e2 r1 r2 : Z),
@@ -21,8 +31,8 @@ Theorem C09_C09_monotone :
          f = F32 \/ f = F64 ->
          in_domain i1 f1 e1 ->
          in_domain i2 f2 e2 ->
-         deep_ok c f b i1 f1 e1 ->
-         deep_ok c f b i2 f2 e2 ->
+         EndToEnd7.deep_ok c f b i1 f1 e1 ->
+         EndToEnd7.deep_ok c f b i2 f2 e2 ->
          (dec_value i1 f1 e1 <= dec_value i2 f2 e2)%Q ->
          PF c f b i1 f1 e1 = Ok r1 -> PF c f b i2 f2 e2 = Ok r2 -> r1 <= r2.
 Proof. exact C09_monotone. Qed.
@@ -53,6 +63,7 @@ Theorem C09_underflow_threshold_iff :
 Proof. exact underflow_threshold_iff. Qed.
 
 
+Print Assumptions C09_C09_final.
 Print Assumptions C09_C09_monotone.
 Print Assumptions C09_RN_monotone.
 Print Assumptions C09_bits_le_iff.
